@@ -133,6 +133,8 @@ func (g *Gen) enterLoop(li *loopInfo, ins []inEdge, fwdPreds []*ssa.BasicBlock) 
 			g.assert(imp(old, n))
 		case strings.HasPrefix(gh, "$count:"):
 			g.assert(sx(">=", n, old))
+		case strings.HasPrefix(gh, "$since:"), strings.HasPrefix(gh, "$sent:"):
+			g.assert(sx(">=", n, "0"))
 		}
 		g.cur.ghost[gh] = n
 	}
@@ -305,6 +307,18 @@ func (g *Gen) loopMods(li *loopInfo) (comps []string, ghosts []string) {
 					}
 				}
 			}
+			if st, ok := in.(*ssa.Store); ok {
+				if fn, _ := fieldNameOfAddr(st.Addr); fn != "" && g.selectors["$stored:"+fn] {
+					gs["$stored:"+fn] = true
+				}
+			}
+			if sd, ok := in.(*ssa.Send); ok {
+				if ld, ok := sd.Chan.(*ssa.UnOp); ok {
+					if fn, _ := fieldNameOfAddr(ld.X); fn != "" && g.selectors["$sent:"+fn] {
+						gs["$sent:"+fn] = true
+					}
+				}
+			}
 			var cc *ssa.CallCommon
 			switch x := in.(type) {
 			case *ssa.Call:
@@ -318,6 +332,11 @@ func (g *Gen) loopMods(li *loopInfo) (comps []string, ghosts []string) {
 						gs["$called:"+name] = true
 						gs["$ok:"+name] = true
 						gs["$count:"+name] = true
+						for _, sn := range g.sinces {
+							if sn[0] == name || sn[1] == name {
+								gs["$since:"+sn[0]+"|"+sn[1]] = true
+							}
+						}
 						rs := cc.Signature().Results()
 						for ri := 0; ri < rs.Len(); ri++ {
 							gn := fmt.Sprintf("$res:%s:%d", name, ri)
@@ -360,6 +379,17 @@ func (g *Gen) collectSelectors() {
 		if e.Kind == SCall && (e.Name == "called" || e.Name == "succeeded" || e.Name == "count") && len(e.Args) == 1 {
 			g.selectors[selName(e.Args[0])] = true
 		}
+		if e.Kind == SCall && e.Name == "since" && len(e.Args) == 2 {
+			g.sinces = append(g.sinces, [2]string{selName(e.Args[0]), selName(e.Args[1])})
+			g.selectors[selName(e.Args[0])] = true
+			g.selectors[selName(e.Args[1])] = true
+		}
+		if e.Kind == SCall && e.Name == "stored" && len(e.Args) == 1 {
+			g.selectors["$stored:"+selName(e.Args[0])] = true
+		}
+		if e.Kind == SCall && e.Name == "sent" && len(e.Args) == 1 {
+			g.selectors["$sent:"+selName(e.Args[0])] = true
+		}
 		if e.Kind == SCall && e.Name == "result_of" && len(e.Args) == 2 {
 			g.selectors[selName(e.Args[0])] = true
 		}
@@ -384,6 +414,12 @@ func (g *Gen) collectSelectors() {
 		walk(cl.E)
 	}
 	for _, cs := range g.con.Calls {
+		walk(cs.Cl.E)
+	}
+	for _, cs := range g.con.Stores {
+		walk(cs.Cl.E)
+	}
+	for _, cs := range g.con.Sends {
 		walk(cs.Cl.E)
 	}
 	for _, l := range g.con.Loops {
